@@ -17,7 +17,7 @@ ID = 'C22'
 SRC = ['hail/python/hailtop/aiotools/fs/copier.py', 'hail/python/hailtop/aiotools/copy.py',
        'hail/python/hailtop/aiotools/local_fs.py', 'hail/python/hailtop/aiotools/router_fs.py']
 COQ_PROPS = 'theories/Copy/Props_C22.v'
-READY = False
+READY = True
 META = dict(
     design_ref='§5.D C22',
     technique='Coq proofs (tilings of [0,size) by the part/buffer arithmetic; positional writes in any order; finite-map file trees) about a '
